@@ -1243,6 +1243,8 @@ class Gen:
         out.append(text[pos:])
         text = "".join(out)
         text = "\n".join(l for l in text.split("\n") if l.strip())
+        # restricted visibilities are meaningless in the single file
+        text = re.sub(r"\bpub\s*\((?:super|crate|in [^)]*)\)", "pub", text)
         for vl, b in block:
             if b.startswith("map "):
                 frm, to = _split_map(b[4:])
